@@ -15,11 +15,12 @@ FILES = ["m", "test_m", "tests", "docs", "test", "conftest"]
 
 
 class Tree:
-    def __init__(self, tid: int, dirs: list[tuple[tuple[str, ...], bool]], fname: str):
-        """dirs: list of (path below tree root, has __init__)."""
+    def __init__(self, tid: int, dirs: list[tuple[tuple[str, ...], bool]], fname: str, imported: bool = False):
+        """dirs: list of (path below tree root, has __init__).  imported: the package __init__ of each special directory
+        defines a function and the ordinary module imports it (which pulls that __init__ into the type checker's graph)."""
         self.tid = tid
         self.T = f"{tid:04d}"
-        self.label = "+".join("/".join(p) + ("" if init else "(no-init)") for p, init in dirs) + f":{fname}.py"
+        self.label = "+".join("/".join(p) + ("" if init else "(no-init)") for p, init in dirs) + f":{fname}.py" + (":imported-init" if imported else "")
         self.files: dict[str, str] = {}
         self.expect: list[tuple[str, bool]] = []  # (function name, excluded without flag)
         root = f"{PKG}/t{self.T}"
@@ -37,6 +38,12 @@ class Tree:
             func = f"fn{self.T}{k}"
             self.files[f"{root}/{'/'.join(path)}/{fn}.py"] = f"def {func}(a: int) -> int:\n    return a\n"
             self.expect.append((func, any(seg in EXCLUDED for seg in path)))
+            if imported and init:
+                ifn = f"initfn{self.T}{k}"
+                pkg_dotted = f"{PKG}.t{self.T}." + ".".join(path)
+                self.files[f"{root}/{'/'.join(path)}/__init__.py"] = f"def {ifn}(a: int) -> int:\n    return a\n\n\nclass InitCls{self.T}{k}:\n    def im(self) -> int:\n        return 1\n"
+                self.files[f"{root}/ord{self.T}.py"] = f"from {pkg_dotted} import {ifn}\n\n\n" + self.files[f"{root}/ord{self.T}.py"]
+                self.expect.append((ifn, any(seg in EXCLUDED for seg in path)))
             k += 1
 
 
@@ -49,6 +56,10 @@ def enumerate_trees(tier: str) -> list[Tree]:
                 for init in (True, False):
                     path = (d,) if depth == 1 else (f"mid{next(tid):04d}", d)
                     out.append(Tree(next(tid), [(path, init)], fname))
+    for d in DIRS:
+        for depth in (1, 2):
+            path = (d,) if depth == 1 else (f"mid{next(tid):04d}", d)
+            out.append(Tree(next(tid), [(path, True)], "m", imported=True))
     if tier == "thorough":
         for d1, d2 in itertools.product(DIRS, repeat=2):
             for init in (True, False):
@@ -102,14 +113,15 @@ def run(rep: Report, tier: str, seed: int) -> None:
 
             for func, excluded in t.expect:
                 in_off = func in fn_off or f"fun {func}(" in text_off
-                in_on = func in fn_on and f"fun {func}(" in text_on
+                # functions defined in a package __init__ never reach a stub (C03's finding): judged on the API JSON only
+                in_on = func in fn_on and (func.startswith("initfn") or f"fun {func}(" in text_on)
                 if excluded:
                     if in_off:
                         viol("flag-off-excludes", "leaked", {"function": func, "api_id": fn_off.get(func)})
                     else:
                         rep.ok("flag-off-excludes")
                 else:
-                    if not (func in fn_off and f"fun {func}(" in text_off):
+                    if not (func in fn_off and (func.startswith("initfn") or f"fun {func}(" in text_off)):
                         viol("flag-off-keeps-others", "missing", {"function": func})
                     else:
                         rep.ok("flag-off-keeps-others")
